@@ -7,6 +7,7 @@ import (
 	"fmt"
 	"os"
 	"path/filepath"
+	"runtime"
 	"runtime/debug"
 	"sort"
 	"strings"
@@ -14,14 +15,25 @@ import (
 	"time"
 
 	"github.com/openGemini/openGemini/engine/immutable"
+	"github.com/openGemini/openGemini/lib/util/lifted/vm/mergeset"
 	"github.com/openGemini/openGemini/lib/util/lifted/vm/protoparser/influx"
 	"github.com/openGemini/openGemini/verifsim/core"
 	"github.com/openGemini/openGemini/verifsim/simfs"
+	"github.com/openGemini/openGemini/verifsim/verifyield"
 )
 
 // cwLeaks counts executions of this process that ended in a deadlock: their
 // goroutines stay blocked for ever and may hold process-wide limiter tokens.
 var cwLeaks int
+
+var cwDbgEnabled = os.Getenv("CW_DEBUG_ENABLED") != ""
+
+// cwGCEvery: at GOMAXPROCS=1 the collector is run by the scheduler every so many steps.
+const cwGCEvery = 24
+
+// cwChaos: this worker runs with more than one P (orchestrator: "chaos_workers"); its runs
+// are counted separately and it is not part of the determinism self-test.
+var cwChaos = os.Getenv("VERIF_CHAOS") != ""
 
 type cwRun struct {
 	c     CCase
@@ -44,6 +56,8 @@ type cwRun struct {
 	attempt      int
 	seqBehind    string
 	seqBehindTxt string
+	unlistedBeforeRestart string // "yes": at some clean close of this run a data file was on disk but in no in-memory list
+	unlistedTxt           string
 	plantFile    immutable.TSSPFile
 	plantUnlock  func()
 	closeStep    int
@@ -54,6 +68,8 @@ type cwRun struct {
 	pctAt   map[int]bool
 	seen    map[[2]int]bool
 	seqLoading bool
+	oneP     bool // GOMAXPROCS == 1
+	lastGC   int
 	overlaps int64
 	dbg bool
 }
@@ -107,13 +123,44 @@ func cwExecOnce(c CCase, env *core.Env, attempt int) *core.Outcome {
 		attempt: attempt, seen: map[[2]int]bool{}, guide: append([]string(nil), c.Sched...), dbg: os.Getenv("CW_DEBUG") != ""}
 	run.sch = newCwSched(c.ReadGate, c.ReadNth)
 	run.sch.dbg = run.dbg
+	run.sch.lockNth, run.sch.lockSeed, run.sch.lockSites = c.LockNth, int64(c.SchedSeed>>1), c.LockSites
+	for _, cl := range strings.Split(c.LockCls, ",") {
+		if cl != "" {
+			run.sch.lockCls[cl] = true
+		}
+	}
+	run.sch.oneP = runtime.GOMAXPROCS(0) == 1
+	run.sch.serial = run.sch.oneP && !cwChaos && !c.NoGate && os.Getenv("CW_NO_SERIAL") == ""
+	if c.LockNth > 0 || cwMicro || run.sch.serial {
+		run.sch.installYield()
+	}
+	// (a case that is repeated — directed replays recorded when the map order was the
+	// runtime's random one — tries another order in every attempt)
+	verifyield.SetMapOrder(c.MapOrder + uint64(attempt))
 	defer run.cleanup()
+	if run.oneP = runtime.GOMAXPROCS(0) == 1; run.oneP {
+		// a one-CPU machine: the index starts one part merger per table, not one per host CPU
+		defer mergeset.VerifSetMergeWorkers(mergeset.VerifSetMergeWorkers(1))
+		// one P: the garbage collector runs only where the scheduler calls it (at quiescent
+		// points), so that its workers never reorder the goroutines of a step
+		defer debug.SetGCPercent(debug.SetGCPercent(-1))
+		t0 := time.Now()
+		runtime.GC()
+		out.Stats["gc_us"] += time.Since(t0).Microseconds()
+	}
 	base := filepath.Join(env.Scratch, fmt.Sprintf("a%d", attempt))
 	if err := run.open(filepath.Join(base, "inc0"), ""); err != nil {
 		out.Violation = sviol(prop, "open_failed", "opening an empty shard failed: "+err.Error(), nil)
 		return out
 	}
-	out.Log("case knobs=%+v nm=%d ns=%d pct=%v readgate=%q/%d guided=%d", c.Knobs, c.NMst, c.NSeries, c.PCT, c.ReadGate, c.ReadNth, len(c.Sched))
+	out.Log("case knobs=%+v nm=%d ns=%d pct=%v readgate=%q/%d guided=%d maporder=%d", c.Knobs, c.NMst, c.NSeries, c.PCT, c.ReadGate, c.ReadNth, len(c.Sched), c.MapOrder)
+	if cwChaos {
+		out.Stats["chaos_runs"]++
+	}
+	if c.LockNth > 0 {
+		out.Log("lock yields: 1 in %d, sites=%v classes=%q", c.LockNth, c.LockSites, c.LockCls)
+		out.Stats["runs_with_lock_yields"]++
+	}
 	// ---- rounds: T==0 operations run alone (ungated); each maximal run of T>0
 	// operations is one concurrent segment under the scheduler
 	var v *core.Violation
@@ -148,6 +195,11 @@ func cwExecOnce(c CCase, env *core.Env, attempt int) *core.Outcome {
 		}
 		i = j
 	}
+	if cwMicro {
+		for _, l := range run.sch.micro {
+			out.Log("micro %s", l)
+		}
+	}
 	// record the schedule for guided minimisation
 	cwTraceMu.Lock()
 	if len(cwTraces) > 64 {
@@ -164,6 +216,13 @@ func cwExecOnce(c CCase, env *core.Env, attempt int) *core.Outcome {
 	for cl, n := range run.sch.fsSteps {
 		out.Stats["fs_steps_"+cl] += n
 	}
+	for cl, n := range run.sch.ySteps {
+		out.Stats["yield_steps_"+cl] += n
+		out.Stats["yield_steps"] += n
+	}
+	out.Stats["yield_arrivals"] = run.sch.yHits.Load()
+	out.Stats["yield_parked"] = run.sch.yParked.Load()
+	out.Stats["serialisation_parks"] = run.sch.yAuto.Load()
 	out.Nontrivial = run.overlaps > 0 && run.h.nAcked > 0
 	if v != nil {
 		out.Violation = v
@@ -201,6 +260,7 @@ func cwExecOnce(c CCase, env *core.Env, attempt int) *core.Outcome {
 
 func (run *cwRun) cleanup() {
 	run.sch.freeRun()
+	run.sch.removeYield()
 	if run.plantUnlock != nil {
 		run.plantUnlock()
 		run.plantUnlock = nil
@@ -319,6 +379,17 @@ func (run *cwRun) loadAllFiles() {
 // closeNode closes the shard outside the scheduler (free-run) with a watchdog.
 func (run *cwRun) closeNode(phase string) *core.Violation {
 	run.sch.freeRun()
+	// diagnostics only (labels, never verdicts): data files that are on disk but in no
+	// in-memory list now will be loaded by the next incarnation
+	if run.node != nil && run.node.sh != nil && !run.closed && run.unlistedBeforeRestart != "yes" {
+		run.unlistedBeforeRestart = "no"
+		for m := 0; m < run.c.NMst; m++ {
+			if a, txt := cwDiag(run.node, m); a["unlisted_files"] == "yes" {
+				run.unlistedBeforeRestart = "yes"
+				run.unlistedTxt = txt
+			}
+		}
+	}
 	errc := make(chan error, 1)
 	node := run.node
 	go func() {
@@ -459,7 +530,7 @@ func cwQueryOf(op COp) *sQuery {
 
 // ---- task bodies -------------------------------------------------------------------
 
-func (run *cwRun) startOp(i int) *cwTaskRun {
+func (run *cwRun) startOp(i int, sole bool) *cwTaskRun {
 	op := run.c.Ops[i]
 	tr := &cwTaskRun{op: i, task: op.T, start: run.step}
 	run.runs = append(run.runs, tr)
@@ -474,6 +545,8 @@ func (run *cwRun) startOp(i int) *cwTaskRun {
 			}
 			run.sch.mu.Lock()
 			delete(run.sch.goTask, tr.goid)
+			delete(run.sch.goAll, tr.goid)
+			delete(run.sch.goWho, tr.goid)
 			run.sch.mu.Unlock()
 			tr.done.Store(true)
 			run.doneCnt.Add(1)
@@ -482,6 +555,11 @@ func (run *cwRun) startOp(i int) *cwTaskRun {
 		run.sch.mu.Lock()
 		if op.K == "w" {
 			run.sch.goTask[tr.goid] = cwTaskName(op.T)
+		}
+		run.sch.goAll[tr.goid] = cwActorOfOp(op)
+		run.sch.goWho[tr.goid] = cwTaskName(op.T)
+		if sole {
+			run.sch.actor = tr.goid // the goroutine of this step
 		}
 		run.sch.mu.Unlock()
 		close(ready)
@@ -887,6 +965,28 @@ func (run *cwRun) loop() *core.Violation {
 	doneFn := func() int { return int(run.doneCnt.Load()) }
 	for {
 		run.sch.waitQuiet(doneFn)
+		// goroutines that stopped at a yield point only to be serialised run now, one at a time
+		for n := 0; ; n++ {
+			p := run.sch.nextAuto()
+			if p == nil {
+				break
+			}
+			if n > 20000 {
+				panic(core.InfraPanic("world C: more than 20000 serialisation resumes in one step"))
+			}
+			if run.dbg {
+				fmt.Printf("CW s%d resume %s\n", run.step, p.desc())
+			}
+			run.sch.release(p)
+			run.sch.waitQuiet(doneFn)
+		}
+		if run.oneP && run.step%cwGCEvery == cwGCEvery-1 && run.step != run.lastGC {
+			run.lastGC = run.step
+			t0 := time.Now()
+			runtime.GC()
+			run.out.Stats["gc_us"] += time.Since(t0).Microseconds()
+			run.out.Stats["gc_forced"]++
+		}
 		if v := run.observe(); v != nil {
 			return v
 		}
@@ -912,6 +1012,15 @@ func (run *cwRun) loop() *core.Violation {
 		ai := run.choose(acts)
 		a := acts[ai]
 		run.step++
+		run.sch.stepNo.Store(int64(run.step))
+		if cwDbgEnabled {
+			// diagnostics (CW_DEBUG_ENABLED=1): the enabled set the choice was made from
+			ds := make([]string, len(acts))
+			for i, x := range acts {
+				ds[i] = x.desc
+			}
+			run.out.Log("s%d enabled %d: %s", run.step, len(acts), strings.Join(ds, " | "))
+		}
 		run.trace = append(run.trace, a.desc)
 		infl := run.inflightSet()
 		if infl["query"] && (infl["flush"] || infl["compact"] || infl["merge"] || infl["seq_reload"] || infl["drop"] || infl["close"]) {
@@ -953,13 +1062,16 @@ func (run *cwRun) loop() *core.Violation {
 			}
 			run.h.opStart(i, op, run.step)
 		}
+		if len(starts) > 1 {
+			run.sch.setActor(cwActorAll)
+		}
 		for k, i := range starts {
 			if k > 0 && run.attempt > 0 {
 				// delay sweep between the operations of a burst (one value per attempt)
 				for t0 := time.Now(); time.Since(t0) < time.Duration(run.attempt%40)*5*time.Microsecond; {
 				}
 			}
-			run.startOp(i)
+			run.startOp(i, len(starts) == 1)
 		}
 	}
 }
